@@ -30,6 +30,28 @@ SPECIAL = [
 ]
 
 
+def cyclic_scripts(r, n):
+    """column graphs with cycles of length >= 2 that are entered from several source columns and left towards targets
+    (staging tables that feed each other): which paths exist must not depend on the order in which sources are visited"""
+    out = []
+    for _ in range(n):
+        k = r.choice([2, 2, 3, 4])
+        ring = ["stg.t%d" % i for i in range(k)]
+        st = []
+        for i, t in enumerate(ring):
+            if r.random() < 0.8 or i == 0:
+                st.append("insert into %s select x from src.s%d" % (t, i))
+        for i, t in enumerate(ring):
+            st.append("insert into %s select x from %s" % (ring[(i + 1) % k], t))
+        if k > 2 and r.random() < 0.5:
+            st.append("insert into %s select x from %s" % (ring[0], ring[2]))
+        for j in range(r.choice([1, 1, 2])):
+            st.append("insert into rpt.f%d select x from %s" % (j, r.choice(ring)))
+        r.shuffle(st)
+        out.append({"sql": ";\n".join(st), "dialect": "ansi", "metadata": None})
+    return out
+
+
 def run_seed(args):
     hashseed, recs = args
     p = subprocess.run(["/venv/bin/python", "-W", "ignore", "/verif/harness/c11_worker.py"], input=json.dumps(recs), capture_output=True,
@@ -53,7 +75,8 @@ def main() -> int:
             and not any(v for v in (x.get("config") or {}).values())]
     recs = r.sample(recs, 120 if quick else len(recs))
     recs = [{"sql": x["sql"], "dialect": x["dialect"], "metadata": x.get("metadata")} for x in recs]
-    gen = gen_scripts.gen_records(r, 90 if quick else 1200)
+    gen = gen_scripts.gen_records(r, 90 if quick else 1200) + [dict(x, silent=False, provider="dummy", config={}, origin="cyclic")
+                                                             for x in cyclic_scripts(r, 12 if quick else 150)]
     ast = [{"sql": astgen.to_sql(astgen.gen_stmt(r, 2)), "dialect": "ansi", "metadata": None} for _ in range(90 if quick else 1200)]
     allrecs = recs + [{"sql": x["sql"], "dialect": "ansi", "metadata": x.get("metadata")} for x in gen] + ast + \
         [{k: v for k, v in x.items() if k != "class"} for x in SPECIAL]
